@@ -95,7 +95,7 @@ func build(d *dialect, n int, edges [][2]int) *world {
 	}
 	for _, e := range edges {
 		c, p := w.tables[e[0]], w.tables[e[1]]
-		col := &schema.Column{Name: p.Name + "_id", Type: d.intT(), }
+		col := &schema.Column{Name: p.Name + "_id", Type: d.intT()}
 		if e[0] == e[1] {
 			col.Name = "self_id"
 		}
@@ -181,7 +181,8 @@ func (in *input) key() string {
 
 type result struct {
 	plan, file, sum, sorted, err string
-	maxparents                  int
+	replan                       string
+	maxparents                   int
 }
 
 // execute runs plan -> format -> hash once, on objects of its own.
@@ -208,6 +209,16 @@ func execute(in *input) result {
 		cmds = append(cmds, c.Cmd)
 	}
 	r.plan = dig(cmds...)
+	// the same change objects planned once more: planning must not have altered its input
+	if pl2, err := in.d.plan.PlanChanges(context.Background(), "plan", cs); err != nil {
+		r.replan = "error: " + err.Error()
+	} else {
+		var c2 []string
+		for _, c := range pl2.Changes {
+			c2 = append(c2, c.Cmd)
+		}
+		r.replan = dig(c2...)
+	}
 	s := append([]string{}, cmds...)
 	sort.Strings(s)
 	r.sorted = dig(s...)
@@ -240,6 +251,11 @@ func execute(in *input) result {
 func obsPlan(in *input, variant string, k int, r result) {
 	emit(ev{"ev": "obs", "op": "plan", "input": in.key(), "variant": variant, "k": k, "plan": r.plan, "file": r.file, "sum": r.sum, "sorted": r.sorted,
 		"same_schema": true, "err": r.err, "maxparents": r.maxparents})
+	if r.err == "" && variant != "conc" {
+		// second planning of the same objects, as one more execution of op "replan"(input): first the fresh plan, then the repeated one
+		emit(ev{"ev": "obs", "op": "replan", "input": in.key(), "variant": variant, "k": 2 * k, "plan": r.plan, "file": "", "sum": "", "sorted": "", "same_schema": true, "err": "", "maxparents": r.maxparents})
+		emit(ev{"ev": "obs", "op": "replan", "input": in.key(), "variant": variant, "k": 2*k + 1, "plan": r.replan, "file": "", "sum": "", "sorted": "", "same_schema": true, "err": "", "maxparents": r.maxparents})
+	}
 }
 
 // ---- HCL ---------------------------------------------------------------------------------------------
@@ -372,6 +388,137 @@ func runHCL(in *input, tag string, runs, perms int, rng *rand.Rand) {
 	}
 }
 
+// ---- diff under another listing order of a table's constraints ------------------------------------------
+
+type chk struct {
+	name, expr string
+	soft       bool // MySQL: NOT ENFORCED, PostgreSQL: NO INHERIT
+}
+
+var chkCat = []chk{{"positive", "(id > 0)", false}, {"positive_soft", "(id > 0)", true}, {"small", "(id < 100)", false}}
+
+func describe(cs []schema.Change) []string {
+	var out []string
+	for _, c := range cs {
+		switch c := c.(type) {
+		case *schema.ModifyTable:
+			for _, s := range c.Changes {
+				switch s := s.(type) {
+				case *schema.AddCheck:
+					out = append(out, "AddCheck "+s.C.Name)
+				case *schema.DropCheck:
+					out = append(out, "DropCheck "+s.C.Name)
+				case *schema.ModifyCheck:
+					out = append(out, "ModifyCheck "+s.From.Name+"->"+s.To.Name)
+				case *schema.AddColumn:
+					out = append(out, "AddColumn "+s.C.Name)
+				default:
+					out = append(out, fmt.Sprintf("%T", s))
+				}
+			}
+		default:
+			out = append(out, fmt.Sprintf("%T", c))
+		}
+	}
+	sort.Strings(out)
+	return out
+}
+
+func chkTable(d *dialect, set []int, order []int, extraCol bool) *schema.Schema {
+	s := schema.New(d.schema)
+	t := schema.NewTable("t").SetSchema(s)
+	id := &schema.Column{Name: "id", Type: d.intT()}
+	t.AddColumns(id)
+	if extraCol {
+		t.AddColumns(&schema.Column{Name: "note", Type: d.intT()})
+	}
+	for _, k := range order {
+		c := chkCat[set[k]]
+		ck := schema.NewCheck().SetName(c.name).SetExpr(c.expr)
+		if c.soft {
+			switch d.name {
+			case "mysql":
+				ck.AddAttrs(&mysql.Enforced{V: false})
+			case "postgres":
+				ck.AddAttrs(&postgres.NoInherit{})
+			}
+		}
+		t.AddChecks(ck)
+	}
+	s.AddTables(t)
+	return s
+}
+
+func perms(n int) [][]int {
+	if n == 0 {
+		return [][]int{{}}
+	}
+	var out [][]int
+	for _, p := range perms(n - 1) {
+		for i := 0; i <= len(p); i++ {
+			q := append(append(append([]int{}, p[:i]...), n-1), p[i:]...)
+			out = append(out, q)
+		}
+	}
+	return out
+}
+
+// runChkPerms: for every pair of check sets (from, to; to optionally with one more column), both diff modes and every listing order of
+// the checks on either side, the change set must be the one computed for the catalogue order.
+func runChkPerms() {
+	var sets [][]int
+	for m := 0; m < 1<<len(chkCat); m++ {
+		var st []int
+		for i := range chkCat {
+			if m&(1<<i) != 0 {
+				st = append(st, i)
+			}
+		}
+		sets = append(sets, st)
+	}
+	for _, d := range dialects() {
+		for _, mode := range []string{"raw", "normalized"} {
+			var opts []schema.DiffOption
+			if mode == "normalized" {
+				opts = append(opts, schema.DiffNormalized())
+			}
+			for fi, fs := range sets {
+				for ti, ts := range sets {
+					for _, extra := range []bool{false, true} {
+						key := fmt.Sprintf("%s/%s/from%d/to%d/col%v", d.name, mode, fi, ti, extra)
+						k := 0
+						for pi, fp := range perms(len(fs)) {
+							for qi, tp := range perms(len(ts)) {
+								variant := "perm"
+								if pi == 0 && qi == 0 {
+									variant = "run"
+								}
+								var desc []string
+								e := ""
+								func() {
+									defer func() {
+										if r := recover(); r != nil {
+											e = fmt.Sprint("panic: ", r)
+										}
+									}()
+									cs, err := d.differ.SchemaDiff(chkTable(d, fs, fp, false), chkTable(d, ts, tp, extra), opts...)
+									if err != nil {
+										e = err.Error()
+									}
+									desc = describe(cs)
+								}()
+								emit(ev{"ev": "obs", "op": "diff", "input": key, "variant": variant, "k": k, "plan": "", "file": "", "sum": "", "sorted": dig(desc...),
+									"same_schema": true, "err": e, "maxparents": 0, "doc": strings.Join(desc, "; ")})
+								k++
+							}
+						}
+					}
+				}
+			}
+		}
+	}
+}
+
 // ---- directories ------------------------------------------------------------------------------------
 
 var catalogue = []string{"1_a.sql", "1_b.sql", "1.sql", "2_a.sql", "10_c.sql", "1_a.down.sql"}
@@ -402,7 +549,9 @@ func runDirs(runs int, tmp string, rng *rand.Rand) {
 			}
 		}
 		key := "dir/" + strings.Join(sel, "+")
-		content := func(n string) []byte { return []byte("-- " + n + "\nCREATE TABLE t_" + strings.NewReplacer(".", "_").Replace(n) + " (id int);\n") }
+		content := func(n string) []byte {
+			return []byte("-- " + n + "\nCREATE TABLE t_" + strings.NewReplacer(".", "_").Replace(n) + " (id int);\n")
+		}
 		k := 0
 		for r := 0; r < runs; r++ {
 			order := append([]string{}, sel...)
@@ -562,6 +711,7 @@ func main() {
 	}
 	if *dirs {
 		runDirs(*runs+2, *tmp, rng)
+		runChkPerms()
 	}
 	out.Flush()
 	f.Close()
